@@ -493,7 +493,7 @@ func verifSpec_ChooseEndpointFn() (string, error) { return verif.Any[string](), 
 // rewritten iff the route declares a rewrite; configured request headers are set.
 //
 //verif:contract ~/pkg/util/vhost.NewHTTPReverseProxy$1
-//verif:props C06 C02
+//verif:props C06 C02 C07
 func verif_Rewrite(r *httputil.ProxyRequest) {
 	rc := r.Out.Context().Value(RouteConfigKey).(*RouteConfig)
 	host0 := r.Out.Host
